@@ -229,8 +229,14 @@ func (vc *VC) generate() (err error) {
 		return fmt.Errorf("%s: no return reached", vc.key)
 	}
 	for _, c := range d.Clauses {
-		if (c.Kind == "assert" || (c.Kind == "ghost" && (c.Anchor == "before-call" || c.Anchor == "after-call"))) && !vc.usedAnchors[c] {
-			return fmt.Errorf("%s#binding: the contract anchors code at call %s#%d, which does not exist in the function", vc.key, c.Callee, c.CallK)
+		if c.Kind == "assert" && !vc.usedAnchors[c] {
+			// an assert clause anchored at a call is a claim about that call: it must bind
+			return fmt.Errorf("%s#binding: the contract anchors an assertion at call %s#%d, which does not exist in the function", vc.key, c.Callee, c.CallK)
+		}
+		if c.Kind == "ghost" && (c.Anchor == "before-call" || c.Anchor == "after-call") && !vc.usedAnchors[c] {
+			// ghost code anchored at a call holds proof hints (cut points, ghost updates): without its call the
+			// hints are dropped and the rest of the contract is still checked against the new body
+			vc.assumes[fmt.Sprintf("%s: ghost code anchored at call %s#%d, which the current body does not have (ignored)", vc.key, c.Callee, c.CallK)] = true
 		}
 	}
 	// vacuity: some return must be reachable under the precondition and all assumptions made
